@@ -46,7 +46,7 @@ UNIVERSES = {
 
 class Engine(EngineBase):
     def budget(self, tier):
-        return (640, 55.0) if tier == "quick" else (20000, 900.0)
+        return (2500, 55.0) if tier == "quick" else (60000, 900.0)
 
     def run_timeout(self, tier):
         return 90.0
